@@ -374,14 +374,14 @@ Qed.
 Theorem single_file_roundtrip : forall p st q,
   submatches R_splitPattern p 4 = None ->
   new_fileseq p st = Ok q ->
-  (forall name frame ext, submatches R_singleFramePattern p 3 = Some [name; frame; ext] ->
+  (forall name frame ext, submatches R_singleFramePattern (snd (path_split p)) 3 = Some [name; frame; ext] ->
        not_neg_zero frame) ->
   q_index q 0 = p.
 Proof.
   intros p st q Hsplit Hq Hfr.
   unfold new_fileseq in Hq. rewrite Hsplit in Hq. unfold new_single in Hq.
   destruct (existsb _ all_chars); [discriminate|].
-  destruct (path_split p) as [dir b0] eqn:Eps. apply path_split_app in Eps.
+  destruct (path_split p) as [dir b0] eqn:Eps. cbn [snd] in Hfr. apply path_split_app in Eps.
   set (be := match last_index c_dot b0 with
              | Some i => (firstn i b0, skipn i b0) | None => (b0, []) end) in Hq.
   assert (Hbe : b0 = fst be ++ snd be).
@@ -392,21 +392,20 @@ Proof.
   assert (Hnofs : Ok (set_padding (mkQ dir basename ext [] 0 None st) []) = Ok q -> q_index q 0 = p).
   { intros E. injection E as <-. rewrite no_fs_index. subst p b0. reflexivity. }
   match type of Hq with (if ?b then _ else _) = _ => destruct b end; [apply Hnofs; exact Hq|].
-  destruct (submatches R_singleFramePattern p 3) as [l|] eqn:Esf; [|apply Hnofs; exact Hq].
+  destruct (submatches R_singleFramePattern b0 3) as [l|] eqn:Esf; [|apply Hnofs; exact Hq].
   destruct l as [|name [|frame [|ext' [|x l]]]]; try (apply Hnofs; exact Hq).
   pose proof (Hfr name frame ext' eq_refl) as Hnz.
-  destruct (single_frame_tiles p name frame ext' Esf) as [Htile Hnum].
+  destruct (single_frame_tiles b0 name frame ext' Esf) as [Htile Hnum].
   destruct (atoi frame) as [v|] eqn:Hv;
     [|rewrite (new_frameset_numeral_err frame Hnum Hv) in Hq; apply Hnofs; exact Hq].
   destruct (new_frameset_numeral frame v Hnum Hv) as (f & Hf & Hf0).
   unfold opt_frameset in Hq. rewrite Hf in Hq.
-  destruct (path_split name) as [dir' base'] eqn:Eps'. apply path_split_app in Eps'.
   injection Hq as <-.
   unfold q_index, set_padding. cbn [q_fs q_dir q_base q_ext q_style].
   rewrite Hf0. unfold q_frame_int. cbn [q_fs q_dir q_base q_ext q_zfill].
   rewrite pad_roundtrip_proof by (apply numeral_length_pos; exact Hnum).
   rewrite zfill_int_reconstruct.
-  - rewrite Htile, Eps', <- app_assoc. reflexivity.
+  - rewrite Eps, Htile. reflexivity.
   - exact Hnum.
   - rewrite atoi_atoi_big in Hv. destruct (atoi_big frame) as [z|]; [|discriminate].
     destruct (fits_int z); [|discriminate]. exact Hv.
